@@ -23,3 +23,6 @@ class AbsQueue:
 
     def put(self, item):
         raise NotImplementedError("external")
+
+    def put_nowait(self, item):
+        raise NotImplementedError("external")
